@@ -5,83 +5,16 @@ From RecordUpdate Require Import RecordSet.
 From SV Require Import Base.Base IR.State IR.NS IR.Ops Xform.Clone Proofs.AssocX Proofs.Frame Proofs.Inv1a Proofs.Inv2a
   Proofs.InvP Proofs.InvW Proofs.Fresh Proofs.NsInv Proofs.Repoint Proofs.CloneInv Proofs.RefK Proofs.CloneRef Proofs.CloneT Proofs.FieldT
   Proofs.CloneMemo Proofs.CloneRR Proofs.CloneFaith Proofs.CloneInvP Proofs.CloneFull
-  Proofs.CloneMemoK Proofs.CloneFaithK Proofs.CloneStage Proofs.CloneStageP.
+  Proofs.CloneMemoK Proofs.CloneFaithK Proofs.CloneStage Proofs.CloneStageP Proofs.CloneRekey Proofs.CloneEx.
 Import ListNotations RecordSetNotations.
-
-Definition rekey_look (m : memo) (x' : id) (s : state) (kv : id * id) : R :=
-  match mget m (fst kv) with Some k' => rekey s x' (fst kv, k') | None => raise s XStuck end.
-
-Lemma rekey_all_unfold m s x' : rekey_all m s x' = fold_pairsR (rekey_look m x') (map (fun k => (k, k)) (keys s x')) s.
-Proof. unfold rekey_all, keys. rewrite map_map. reflexivity. Qed.
-
-Lemma rekey_look_fold m x' : forall L s s',
-  fold_pairsR (rekey_look m x') (map (fun k => (k, k)) L) s = (s', None) ->
-  exists ps, map fst ps = L /\ (forall k k', In (k, k') ps -> mget m k = Some k') /\
-             fold_pairsR (fun s cn => rekey s x' cn) ps s = (s', None).
-Proof.
-  induction L as [|k L IH]; intros s s' E; cbn [map fold_pairsR] in E.
-  - exists []. split; [reflexivity|]. split; [intros k k' []|exact E].
-  - unfold rekey_look at 1 in E. cbn [fst] in E. destruct (mget m k) as [k'|] eqn:Ek; [|cbn in E; discriminate].
-    destruct (rekey s x' (k, k')) as [s1 [e|]] eqn:Er; cbn [bindR] in E; [discriminate|].
-    destruct (IH s1 s' E) as [ps [A [B C]]]. exists ((k, k') :: ps). split; [cbn; rewrite A; reflexivity|]. split.
-    + intros a b [H|H]; [injection H as <- <-; exact Ek|apply B; exact H].
-    + cbn [fold_pairsR]. rewrite Er. cbn [bindR]. exact C.
-Qed.
-
-(* the re-keying of one instance *)
-Lemma remap_keys s m x' s' :
-  InvP s -> NoDup (keys s x') -> NoDup (map snd m) ->
-  (forall a b, In (a, b) m -> ~ In b (keys s x') /\ ~ In b (map fst m)) ->
-  rekey_all m s x' = (s', None) ->
-  InvP s' /\ frame_w s s' /\ ipwire s' = ipwire s /\
-  (forall i, In i (keys s' x') <-> exists k, In k (keys s x') /\ mget m k = Some i) /\ NoDup (keys s' x') /\
-  (forall n, n <> x' -> ipins s' n = ipins s n) /\
-  (forall w, wpins s' w = map (fun q => match q with POut n c => if Nat.eqb n x' then match mget m c with Some c' => POut n c' | None => q end else q | _ => q end) (wpins s w)).
-Proof.
-  intros Hp Hnd Hinj Hfresh E. rewrite rekey_all_unfold in E.
-  destruct (rekey_look_fold m x' _ _ _ E) as [ps [Hfst [Hlook Efold]]].
-  assert (Hsnd_in : forall n, In n (map snd ps) -> exists k, In (k, n) ps).
-  { intros n Hn. apply in_map_iff in Hn as [[k n'] [E1 Hn]]. cbn in E1. subst n'. exists k. exact Hn. }
-  assert (Hf : NoDup (map fst ps)) by (rewrite Hfst; exact Hnd).
-  assert (Hs : NoDup (map snd ps)).
-  { clear -Hlook Hf Hinj. induction ps as [|[k k'] ps IHp]; cbn; [constructor|]. cbn in Hf. inversion Hf as [|? ? Hn Hf']; subst.
-    constructor; [|apply IHp; [intros a b H; apply Hlook; right; exact H|exact Hf']].
-    intro Hin. apply in_map_iff in Hin as [[k2 k2'] [E1 Hin]]. cbn in E1. subst k2'.
-    assert (k2 = k).
-    { apply (memo_inj m k2 k k' Hinj); apply mget_in; [apply Hlook; right; exact Hin|apply Hlook; left; reflexivity]. }
-    subst k2. apply Hn. apply in_map_iff. exists (k, k'). split; [reflexivity|exact Hin]. }
-  assert (Hck : forall c, In c (map fst ps) -> In c (keys s x')) by (intros c Hc; rewrite Hfst in Hc; exact Hc).
-  assert (Hnk : forall n, In n (map snd ps) -> ~ In n (keys s x') /\ ~ In n (map fst ps)).
-  { intros n Hn. destruct (Hsnd_in n Hn) as [k Hk]. pose proof (mget_in m k n (Hlook k n Hk)) as Hm. destruct (Hfresh k n Hm) as [A B].
-    split; [exact A|]. intro Hin. apply B. rewrite Hfst in Hin. 
-    (* a current key that is also a memo value: excluded by A *) exfalso. apply A. exact Hin. }
-  destruct (fold_rekey_fresh x' ps s Hp Hnd Hf Hs Hck Hnk) as [_ [Hp2 [Hfw [Hw [Hk2 [Hnd2 Ho2]]]]]].
-  destruct (fold_rekey_fresh_full x' ps s Hp Hnd Hf Hs Hck Hnk) as [_ Hwp].
-  rewrite Efold in Hp2, Hfw, Hw, Hk2, Hnd2, Ho2, Hwp. cbn [fst] in *.
-  split; [exact Hp2|]. split; [exact Hfw|]. split; [exact Hw|]. split; [|split; [exact Hnd2|split; [exact Ho2|]]].
-  - intro i. rewrite Hk2. split.
-    + intros [Hi|[Hi Hn]]; [|exfalso; apply Hn; rewrite Hfst; exact Hi].
-      destruct (Hsnd_in i Hi) as [k Hk]. exists k. split; [apply Hck; apply in_map_iff; exists (k, i); split; [reflexivity|exact Hk]|apply Hlook; exact Hk].
-    + intros [k [Hk Hm]]. left. rewrite <- Hfst in Hk. apply in_map_iff in Hk as [[k1 k1'] [E1 Hk]]. cbn in E1. subst k1.
-      rewrite (Hlook k k1' Hk) in Hm. injection Hm as <-. apply in_map_iff. exists (k, k1'). split; [reflexivity|exact Hk].
-  - intro w. rewrite Hwp. apply map_ext_in. intros q Hq.
-    rewrite seq_rename_spec; [|exact Hf|intros n Hn; apply (proj2 (Hnk n Hn))].
-    destruct q as [i|n c|]; cbn; try reflexivity. destruct (Nat.eqb_spec n x') as [->|]; [|reflexivity].
-    destruct (assoc c ps) as [c'|] eqn:Ea.
-    + apply assoc_Some_In in Ea. rewrite (Hlook c c' Ea). reflexivity.
-    + (* c is a key of x' (the outer pin is on a wire), so it is among the pairs *)
-      exfalso. assert (Hc : In c (keys s x')).
-      { apply (p_pins _ Hp) in Hq. cbn in Hq. destruct (assoc c (ipins s x')) as [ow|] eqn:Eo; [|discriminate].
-        apply assoc_In_fst. exists ow. exact Eo. }
-      rewrite <- Hfst in Hc. apply assoc_None_not_In in Ea. contradiction.
-Qed.
 
 From SV Require Import Proofs.UniqFull.
 From SV Require Import Proofs.CloneRun.
 
 Record RX (s0 s : state) (m : memo) : Prop := mkRX {
   rx_ri : RI s0 s m;
-  rx_di : forall d d', In (d, d') m -> kind_of s0 d = Some KDefinition -> DefImg s0 d d' s m
+  rx_di : forall d d', In (d, d') m -> kind_of s0 d = Some KDefinition -> DefImg s0 d d' s m;
+  rx_ex : EX s0 s m
 }.
 
 Lemma map_id_in {A} (f : A -> A) l : (forall x, In x l -> f x = x) -> map f l = l.
@@ -154,7 +87,11 @@ Section RemapStep.
       destruct (assoc c (ipins s x')) as [ow|] eqn:Eo; [|discriminate]. subst ow. pose proof (ri_nw _ _ _ R x' c w Hx' Eo). lia. }
     assert (Hwnil : forall w, wpins s w = [] -> wpins s' w = []) by (intros w H0; rewrite Hwp, H0; reflexivity).
     split; [|repeat split; assumption].
-    constructor; [|intros d d' Hdd Hkd; apply (defimg_kids_same s0 d d' s s' m Fk); apply (rx_di _ _ _ X d d' Hdd Hkd)].
+    constructor; [|intros d d' Hdd Hkd; apply (defimg_kids_same s0 d d' s s' m Fk); apply (rx_di _ _ _ X d d' Hdd Hkd)|].
+    2:{ destruct (st_cov _ _ _ ST0 x' Hx' (or_intror (or_intror Hkx))) as [x Hxx].
+        assert (Hkx0 : kind_of s0 x = Some KInstance) by (rewrite <- (st_kind _ _ _ ST0 x x' Hxx); exact Hkx).
+        apply (ex_remap s0 s s' m x x' e e' (rx_ex _ _ _ X) ST0 (ri_p _ _ _ R) (k_nodup _ (ri_k _ _ _ R) x') Hxx Hkx0 Hr He He'0
+                 (fun a b Hab => proj1 (Hfresh a b Hab)) E Hw Hoth Hwp Fi). }
     constructor.
     - (* the stage invariant *)
       destruct ST0 as [A B C D Ek O Kd Ab Pn Wr In0 Df Cv]. constructor.
@@ -268,7 +205,8 @@ Qed.
 
 Lemma rx_set_drefs s0 s m d' l : RX s0 s m -> next s0 <= d' -> RX s0 (set_drefs s d' l) m.
 Proof.
-  intros [[ST0 A KL T P K Ab Pl Po Pn Rl Nw Dr] DI] Hd. constructor.
+  intros [[ST0 A KL T P K Ab Pl Po Pn Rl Nw Dr] DI EXs] Hd. constructor.
+  3:{ apply (ex_same s0 s _ m EXs (st_fun _ _ _ ST0)); reflexivity. }
   - constructor.
     + destruct ST0 as [a b c d e f g h i j k l0 n]. constructor; assumption.
     + exact A.
